@@ -10,3 +10,12 @@ package model
 //@   let h, herr := hashing.CalculateModelMultihash(model, algs[0])
 //@   ensures [iff] (err == nil) == (len(algs) > 0 && herr == nil)
 //@   ensures [suffix] err == nil ==> ret == h
+
+// C08: the anchored form keeps suffix, type and anchor origin of the request it is made from, and
+// exists exactly for the four request types (when the request can be canonicalised)
+//@ func GetAnchoredOperation(op) (ret, err)
+//@   requires op != nil
+//@   modifies nothing
+//@   ensures [atomic] (err != nil ==> ret == nil) && (err == nil ==> ret != nil)
+//@   ensures [keeps] err == nil ==> ret.Type == op.Type && ret.UniqueSuffix == op.UniqueSuffix && ret.AnchorOrigin == op.AnchorOrigin
+//@   ensures [types] err == nil ==> op.Type == operation.TypeCreate || op.Type == operation.TypeUpdate || op.Type == operation.TypeRecover || op.Type == operation.TypeDeactivate
